@@ -120,45 +120,14 @@ def intSum : List Value → Int
   | .int i :: vs => i + intSum vs
   | _ :: vs => intSum vs
 
-/-- replace every NaN by the canonical one: the Spec's grouping / DISTINCT equivalence identifies all NaNs
-    (and nothing else: Int ≢ Float, structural otherwise; whether −0.0 ~ +0.0 is left unspecified). -/
-def canon : Value → Value
-  | .float b => if (F64.ofBits b).isNaN then .float 0x7ff8000000000000 else .float b
-  | .list xs => .list (canonList xs)
-  | .map kvs => .map (canonMap kvs)
-  | v => v
-where
-  canonList : List Value → List Value
-    | [] => []
-    | x :: xs => canon x :: canonList xs
-  canonMap : List (Str × Value) → List (Str × Value)
-    | [] => []
-    | (k, x) :: xs => (k, canon x) :: canonMap xs
-
-/-- the Spec's grouping equivalence -/
-def groupEqv (a b : Value) : Bool := same (canon a) (canon b)
+/-- the Spec's grouping / DISTINCT equivalence: the engine's equality `==` (so `-0.0 ~ +0.0`, as under Cypher
+    `=`; Int ≢ Float; structural otherwise) made reflexive: every NaN is equivalent to every NaN. -/
+def groupEqv (a b : Value) : Bool := same (norm a) (norm b)
 
 /-- first representative of every class of `groupEqv`, in order of first occurrence -/
 def distinctReps : List Value → List Value
   | [] => []
   | v :: vs => v :: (distinctReps vs).filter (fun w => !groupEqv v w)
 
-/-- both signs of zero occur somewhere inside: the Spec has no opinion on grouping / DISTINCT then -/
-def zeroSigns : Value → Bool × Bool
-  | .float b => (b == 0, b == 0x8000000000000000)
-  | .list xs => zsList xs
-  | .map kvs => zsMap kvs
-  | _ => (false, false)
-where
-  zsList : List Value → Bool × Bool
-    | [] => (false, false)
-    | x :: xs => let a := zeroSigns x; let b := zsList xs; (a.1 || b.1, a.2 || b.2)
-  zsMap : List (Str × Value) → Bool × Bool
-    | [] => (false, false)
-    | (_, x) :: xs => let a := zeroSigns x; let b := zsMap xs; (a.1 || b.1, a.2 || b.2)
-
-def mixedZeros (vs : List Value) : Bool :=
-  let z := zeroSigns (.list vs)
-  z.1 && z.2
 
 end Nervus.Spec
